@@ -97,7 +97,7 @@ theorem methodOf_requestName_ne_hello : methodOf BUS_NAME REQUEST_NAME ≠ .hell
 theorem requestName_ne_hello : REQUEST_NAME ≠ ([0x48, 0x65, 0x6c, 0x6c, 0x6f] : Bytes) := by decide
 
 theorem lvA_runMethodA (L : Leaves K) (files : List SvcFile) (maxP : Nat) (x : ATx) (c : ConnId) (m : Msg) (iface name : Bytes)
-    (hact : x.t.bus.isActive c = true ∨ (iface = BUS_NAME ∧ name = ([0x48, 0x65, 0x6c, 0x6c, 0x6f] : Bytes))) :
+    (hact : x.t.bus.isActive c = true ∨ name = ([0x48, 0x65, 0x6c, 0x6c, 0x6f] : Bytes)) :
     K x.t.bus (runMethodA files maxP x c m iface name).1.t.bus := by
   unfold runMethodA
   split
@@ -105,7 +105,7 @@ theorem lvA_runMethodA (L : Leaves K) (files : List SvcFile) (maxP : Nat) (x : A
   · split
     · rename_i hreq
       have ha : x.t.bus.isActive c = true := by
-        rcases hact with h | ⟨_, hn⟩
+        rcases hact with h | hn
         · exact h
         · exfalso
           have : name = REQUEST_NAME := by
@@ -118,10 +118,10 @@ theorem lvA_runMethodA (L : Leaves K) (files : List SvcFile) (maxP : Nat) (x : A
       cases r with
       | ok code => exact L.trans _ _ _ h (lv_reply L _ _ _ _ _)
       | error e => exact h
-    · have hm : x.t.bus.isActive c = true ∨ methodOf iface name = .hello := by
-        rcases hact with h | ⟨hi, hn⟩
+    · have hm : x.t.bus.isActive c = true ∨ methodOf iface name = .hello ∨ methodOf iface name = .opaqueM := by
+        rcases hact with h | hn
         · exact Or.inl h
-        · right; rw [hi, hn]; exact methodOf_hello
+        · right; rw [hn]; exact methodOf_hello_cases iface
       have h := lv_runMethod L x.t c m (methodOf iface name) hm
       rcases hr : runMethod x.t c m (methodOf iface name) with ⟨t1, e⟩
       rw [hr] at h
@@ -148,10 +148,9 @@ theorem lvA_driverHandleA (L : Leaves K) (tbl : List IfaceRow) (files : List Svc
             rcases hact with h | h
             · exact Or.inl h
             · right
-              obtain ⟨h1, h2⟩ := findHandler_handler hf
+              obtain ⟨_, h2⟩ := findHandler_handler hf
               unfold isHello at h
               simp only [Bool.and_eq_true, beq_iff_eq] at h
-              refine ⟨(h1 BUS_NAME h.1.2).symm, ?_⟩
               rw [h2, h.2]; rfl
 
 theorem lvA_toDriverCoreA (L : Leaves K) (tbl : List IfaceRow) (files : List SvcFile) (maxP : Nat) (x : ATx) (c : ConnId) (m : Msg) :
